@@ -650,7 +650,9 @@ impl Translator {
                         SolvedType::Float => {
                             self.emit(st, Instr::AddFloat(Reg::Top, Reg::Top, Reg::Top))
                         }
-                        _ => unreachable!(),
+                        _ => {
+                            helper(mono, "prelude.Num.add");
+                        }
                     },
                     BinaryOperator::Subtract => match arg1_ty {
                         SolvedType::Int => {
@@ -659,7 +661,9 @@ impl Translator {
                         SolvedType::Float => {
                             self.emit(st, Instr::SubFloat(Reg::Top, Reg::Top, Reg::Top))
                         }
-                        _ => unreachable!(),
+                        _ => {
+                            helper(mono, "prelude.Num.subtract");
+                        }
                     },
                     BinaryOperator::Multiply => match arg1_ty {
                         SolvedType::Int => {
@@ -668,7 +672,9 @@ impl Translator {
                         SolvedType::Float => {
                             self.emit(st, Instr::MulFloat(Reg::Top, Reg::Top, Reg::Top))
                         }
-                        _ => unreachable!(),
+                        _ => {
+                            helper(mono, "prelude.Num.multiply");
+                        }
                     },
                     BinaryOperator::Divide => match arg1_ty {
                         SolvedType::Int => {
@@ -677,7 +683,9 @@ impl Translator {
                         SolvedType::Float => {
                             self.emit(st, Instr::DivFloat(Reg::Top, Reg::Top, Reg::Top))
                         }
-                        _ => unreachable!(),
+                        _ => {
+                            helper(mono, "prelude.Num.divide");
+                        }
                     },
                     BinaryOperator::GreaterThan => match arg1_ty {
                         SolvedType::Int => {
@@ -769,7 +777,9 @@ impl Translator {
                         SolvedType::Float => {
                             self.emit(st, Instr::PowFloat(Reg::Top, Reg::Top, Reg::Top))
                         }
-                        _ => unreachable!(),
+                        _ => {
+                            helper(mono, "prelude.Num.power");
+                        }
                     },
                     BinaryOperator::Format => {
                         let func_def = self.statics.get_free_function_decl("prelude.format_append");
